@@ -17,6 +17,15 @@ CLAIMED['C15'] = dict(category='proof', technique='contract-based deductive veri
 CLAIMED['C02'] = dict(category='proof', technique='contract-based deductive verification of the attrs-generated HplProperty.__init__ -> sanity_check chain against the acceptance rule sane(); search loops summarised; z3',
     text='constructing HplProperty(scope, pattern) raises HplSanityError iff not sane(scope, pattern) - clauses (i) and (ii) of the statement - for every scope kind, pattern kind and (possibly disjunctive) events, via contracts on _check_refs_defined/_check_duplicates and the C15 event contracts. Clauses (iii) duplicate channel and (iv) quantifier hygiene are decided by other constructors and are covered here by a bounded grid only.',
     note='attrs-generated __init__ source from linecache; C15 contracts; reading of clause (ii) over event positions', ref='DESIGN.md section 6, C02')
+CLAIMED['C11'] = dict(category='other', technique='contract-based deductive verification (pyvc + z3/cvc5) of canonical_form against the decomposition spec, on inputs of fixed disjunction width with symbolic leaves; bounded native grid for metadata/idempotence',
+    text='canonical_form(P) == canon(P): which positions are split, activator-major source order, identity for unsplit inputs, every other field unchanged - proved for symbolic simple events, aliases, predicates and time bounds on inputs whose disjunction widths are fixed per task (bounded in width). Metadata copy, idempotence and constructibility of outputs: bounded grid. Open finding F13.',
+    note='bounded in disjunction width; metadata outside the value model; C02 constructor contracts', ref='DESIGN.md section 6, C11')
+CLAIMED['C12'] = dict(category='other', technique='lemmas over a first-order trace semantics discharged by z3 (unbounded traces) + the C11 contract obligations that tie the code to the split table',
+    text='For each pattern kind / split position of the decomposition the code is proved to implement (C11), distributing the position over two alternatives preserves satisfaction on every finite timed trace (unbounded length, dense time, arbitrary scope window, alias bindings); the forbidden splits are shown not meaning-preserving (controls).',
+    note='A-SEM: the trace semantics is a formalisation written here from docs/lang.md; C11 link bounded in width', ref='DESIGN.md section 6, C12')
+CLAIMED['C17'] = dict(category='other', technique='contract-based deductive verification (pyvc + z3) of the type-token constructors and index membership; ground evaluation of predefined tokens; bounded stand-in for the schema walk',
+    text='Proved: token constructors reject ill-formed declarations (max<min, length<-1, wrong-kind enumerated values), ArrayType.contains_index/is_fixed_length, twos-complement bounds of the predefined integer tokens. Bounded (not proved): type_check_references and the navigation helpers against an independent resolver on a schema x property grid. Two genuine defects repaired by fix: commits (F1, F2).',
+    note='schema walk not under contract; A-REAL for numeric bounds', ref='DESIGN.md section 6, C17')
 NOT_YET = {}
 
 
